@@ -206,7 +206,8 @@ def alphabet(name: str) -> list[dict]:
 
 def enabled(prefix: list[dict], action: dict) -> bool:
     if action["t"] == "unreg":
-        return sum(1 for a in prefix if a["t"] == "hook") > action["i"]
+        # the target is the i-th hook registration that is not rejected as documented
+        return sum(1 for a in prefix if a["t"] == "hook" and not (a["kind"] == "before_process_path" and a["filter"])) > action["i"]
     return True
 
 
@@ -522,6 +523,9 @@ def apply_action(env: Env, action: dict) -> None:
         env.hook_regs.append({"tag": tag, "scope": "S" if scope == "S2" else scope, "entry": scope, "form": form, "kind": kind,
                               "own": spec, "fn": fn, "live": True, "removed_by": None})
     elif t == "unreg":
+        if action["i"] >= len(env.hook_regs):
+            env.rejected.append("unregister_target_missing")
+            return
         reg = env.hook_regs[action["i"]]
         if reg["scope"] == "G":
             schemathesis.hooks.unregister(reg["fn"])
@@ -695,7 +699,8 @@ def judge(env: Env, obs: dict, history: list[dict], res: Result) -> str:
     if env.failed is not None:
         f = env.failed
         violation({"kind": "registration_legal_on_its_own_rejected", "error": f["error"], "message": f["message"], "form": f["form"],
-                   "own": f["own"], "first_on_entry_point": not any(r["entry"] == f["entry"] for r in env.hook_regs)},
+                   "own": f["own"], "first_on_entry_point": not any(r["entry"] == f["entry"] for r in env.hook_regs),
+                   "after_documented_rejection_on_entry_point": any(r["entry"] == f["entry"] for r in env.rejected_specs)},
                   {"rejected_registration": {k: v for k, v in f.items() if k != "spec"}, "own_filter": spec_terms(f["spec"])})
     # (1) stored filter = filter given at the hook's own registration
     for reg in env.hook_regs:
